@@ -23,6 +23,7 @@ def corpus():
 
 def generate(rng, tier):
     yield from R.search_cases(tier)
+    yield from R.smoke_cases(rng, 12 if tier == 'quick' else 300)
     for _ in range(120 if tier == 'quick' else 12000):
         yield R.gen_case(rng, tier)
 
